@@ -112,6 +112,10 @@ func (s *Spec) Atoms(o LayoutOpts) []Atom {
 				add('W', itoa(p.Nums[i]))
 				prevLit = false
 			}
+			if i < len(p.Aliases) && p.Aliases[i] != "" {
+				add('O', "\""+p.Aliases[i]+"\"")
+				prevLit = true
+			}
 		}
 	}
 	for _, t := range s.Types {
